@@ -39,70 +39,79 @@ def same(a, b):
     return len(a) == len(b) and all((x == y) or (isinstance(x, float) and isinstance(y, float) and math.isnan(x) and math.isnan(y)) for x, y in zip(a, b))
 
 
-def replay(cases):
+def one_call(c, inplace):
+    """perform one call; inplace: the output name is omitted - Track.operate then writes into the first input feature"""
     from tracklib.core.operators import Operator
+    op, k, out = c["op"], c["k"], c["out"]
+    u = [fl(p) for p in c["u"]]
+    v = [fl(p) for p in c["v"]]
+    undef = any(p[1] == 0 and p[0] == 1 for p in (out["val"] if out["kind"] in ("vec", "sqvec", "num", "sqnum") else []))
+    raised, r, got, uu = None, None, None, None
+    dst = () if inplace else ("out",)
+    try:
+        with core.quiet():
+            tr = tk.mk_track([float(i) for i in range(len(u))])
+            tr.createAnalyticalFeature("u", list(u))
+            if v:
+                tr.createAnalyticalFeature("v", list(v))
+            o = getattr(Operator, op)
+            if op in VOID1:
+                tr.operate(o, "u", *dst)
+            elif op in SCAL1:
+                r = tr.operate(o, "u")
+            elif op == "APPLY":
+                tr.operate(o, "u", lambda x: 2 * x + 1, *dst)
+            elif op == "AGGREGATE":
+                r = tr.operate(o, "u", lambda L: sum((i + 1) * x for i, x in enumerate(L)))
+            elif op in VOID2:
+                tr.operate(o, "u", "v", *dst)
+            elif op in SCAL2:
+                r = tr.operate(o, "u", "v")
+            else:
+                tr.operate(o, "u", k, *dst)
+            name = "u" if inplace else "out"
+            if tr.hasAnalyticalFeature(name):
+                got = list(tr.getAnalyticalFeature(name))
+            uu = list(u) if inplace else list(tr.getAnalyticalFeature("u"))
+    except (Exception, SystemExit) as ex:
+        raised = ex
+    sig = "operator%s/%s" % ("-in-place" if inplace else "", op)
+    what = "%s(%s%s%s)%s" % (op, u, (", %s" % v) if v else "", (", %s" % k) if k else "", " with the output name omitted" if inplace else "")
+    if out["kind"] == "raise":
+        if raised is None:
+            return [(sig + "/no-error", "%s returned %r / wrote %r, the specification expects the call to fail (division by zero)" % (what, r, got), c)]
+        return []
+    if raised is not None:
+        return [] if undef else [(sig + "/raised", "%s raised %r, specification %s" % (what, raised, out), c)]
+    viol = []
+    if not same(uu, u):
+        viol.append((sig + "/input-changed", "%s changed its input to %s" % (what, uu), c))
+    kind, val = out["kind"], out["val"]
+    if kind in ("vec", "sqvec"):
+        ok = got is not None and len(got) == len(val) and all(val_ok(g, p, kind == "sqvec") for g, p in zip(got, val))
+        shown = got
+    elif kind in ("num", "sqnum"):
+        ok = val_ok(r, val[0], kind == "sqnum")
+        shown = r
+    elif kind == "list":
+        ok = isinstance(r, list) and [int(x) for x in r] == list(val)
+        shown = r
+    else:
+        ok = r is not None and bool(r) == bool(val[0])
+        shown = r
+    if not ok:
+        viol.append((sig, "%s gave %r, specification %s" % (what, shown, val), c))
+    return viol
+
+
+def replay(cases):
     viol, nontriv, samples = [], set(), []
     for ci, c in enumerate(cases):
-        op, k, out = c["op"], c["k"], c["out"]
-        u = [fl(p) for p in c["u"]]
-        v = [fl(p) for p in c["v"]]
-        undef = any(p[1] == 0 and p[0] == 1 for p in (out["val"] if out["kind"] in ("vec", "sqvec", "num", "sqnum") else []))
-        raised, r, got = None, None, None
-        try:
-            with core.quiet():
-                tr = tk.mk_track([float(i) for i in range(len(u))])
-                tr.createAnalyticalFeature("u", list(u))
-                if v:
-                    tr.createAnalyticalFeature("v", list(v))
-                o = getattr(Operator, op)
-                if op in VOID1:
-                    tr.operate(o, "u", "out")
-                elif op in SCAL1:
-                    r = tr.operate(o, "u")
-                elif op == "APPLY":
-                    tr.operate(o, "u", lambda x: 2 * x + 1, "out")
-                elif op == "AGGREGATE":
-                    r = tr.operate(o, "u", lambda L: sum((i + 1) * x for i, x in enumerate(L)))
-                elif op in VOID2:
-                    tr.operate(o, "u", "v", "out")
-                elif op in SCAL2:
-                    r = tr.operate(o, "u", "v")
-                else:
-                    tr.operate(o, "u", k, "out")
-                if tr.hasAnalyticalFeature("out"):
-                    got = list(tr.getAnalyticalFeature("out"))
-                uu = list(tr.getAnalyticalFeature("u"))
-        except (Exception, SystemExit) as ex:
-            raised = ex
-        sig = "operator/%s" % op
-        what = "%s(%s%s%s)" % (op, u, (", %s" % v) if v else "", (", %s" % k) if k else "")
-        if out["kind"] == "raise":
-            if raised is None:
-                viol.append((sig + "/no-error", "%s returned %r / wrote %r, the specification expects the call to fail (division by zero)" % (what, r, got), c))
-            continue
-        if raised is not None:
-            if not undef:
-                viol.append((sig + "/raised", "%s raised %r, specification %s" % (what, raised, out), c))
-            continue
-        if not same(uu, u):
-            viol.append((sig + "/input-changed", "%s changed its input to %s" % (what, uu), c))
-        kind, val = out["kind"], out["val"]
-        ok = True
-        if kind in ("vec", "sqvec"):
-            ok = got is not None and len(got) == len(val) and all(val_ok(g, p, kind == "sqvec") for g, p in zip(got, val))
-            shown = got
-        elif kind in ("num", "sqnum"):
-            ok = val_ok(r, val[0], kind == "sqnum")
-            shown = r
-        elif kind == "list":
-            ok = isinstance(r, list) and [int(x) for x in r] == list(val)
-            shown = r
-        else:
-            ok = bool(r) == bool(val[0]) and r is not None
-            shown = r
-        if not ok:
-            viol.append((sig, "%s gave %r, specification %s" % (what, shown, val), c))
-        if len(u) >= 2 and any(math.isnan(x) for x in u + v):
+        op, out = c["op"], c["out"]
+        viol.extend(one_call(c, False))
+        if out["kind"] in ("vec", "sqvec", "raise") and op not in SCAL1 and op not in SCAL2 and op != "AGGREGATE":
+            viol.extend(one_call(c, True))
+        if len(c["u"]) >= 2 and any(p[1] == 0 for p in list(c["u"]) + list(c["v"])):
             nontriv.add(op)
         if ci == 0:
             samples.append(c)
